@@ -11,13 +11,16 @@ package cache
 //@ locklevel Transaction.mu 10
 //@ locklevel sharedCacheElem.mu 20
 //@ locklevel Manager.mu 30
+//@ longterm sharedCacheElem.mu write locks on caches are owned by a transaction from its first write access until Commit; write transactions touching the same caches are serialised by the storage writer lock (bbolt single writer), which is assumed
 
 //@ func (*Manager).checkAndPrune
 //@   property C11
 //@   locks 30
 //@   requires unheld(m.mu)
 //@   modifies m.sharedCaches
+//@   safety -overflow
 //@   ensures unheld(m.mu)
+//@   loop 2 invariant rangeindex >= -1
 
 //@ func (*Manager).Release
 //@   property C11
@@ -30,5 +33,41 @@ package cache
 //@   requires t.manager != nil && unheld(t.mu) && unheld(t.manager.mu)
 //@   callback createFn ensures true
 //@   callback f ensures true
+//@   requires t.writtenCaches != t.manager.sharedCaches
+//@   requires forallv(k string, contains(t.writtenCaches, k) ==> t.writtenCaches[k] != nil && heldW(t.writtenCaches[k].mu))
+//@   requires forallv(k string, contains(t.manager.sharedCaches, k) ==> t.manager.sharedCaches[k] != nil)
+//@   requires forallv(k string, contains(t.manager.sharedCaches, k) && held(t.manager.sharedCaches[k].mu) ==> contains(t.writtenCaches, k))
 //@   ensures unheld(t.mu) && unheld(t.manager.mu)
 //@   ensures result != nil ==> t.failed.v != 0
+//@   ensures readOnly ==> blockingAcquisitions(sharedCacheElem.mu) == 0
+//@   ensures !readOnly && result == nil ==> contains(t.writtenCaches, name) && heldW(t.writtenCaches[name].mu)
+//@   ensures forallv(k string, contains(t.writtenCaches, k) ==> t.writtenCaches[k] != nil && heldW(t.writtenCaches[k].mu))
+//@   ensures forallv(k string, old(contains(t.writtenCaches, k)) ==> contains(t.writtenCaches, k))
+
+// Interface method contract: the size of a cached item is computed without touching any
+// modelled state (assumed for every implementation).
+//@ func (Cachable).SizeInMemory
+//@   trusted
+//@   pure
+
+//@ func (*Manager).checkAndPrune$1
+//@   trusted
+//@   pure
+
+// Transaction invariant: every cache recorded as written is write-locked by this transaction,
+// and two names never share a cache element.
+//@ func (*Transaction).Commit
+//@   property C11
+//@   requires t.manager != nil && unheld(t.mu) && unheld(t.manager.mu) && t.writtenCaches != t.manager.sharedCaches
+//@   requires forallv(k string, contains(t.writtenCaches, k) ==> t.writtenCaches[k] != nil && heldW(t.writtenCaches[k].mu))
+//@   requires forallv(a string, forallv(b string, contains(t.writtenCaches, a) && contains(t.writtenCaches, b) && a != b ==> t.writtenCaches[a] != t.writtenCaches[b]))
+//@   ensures unheld(t.mu) && unheld(t.manager.mu)
+//@   ensures forallv(k string, contains(t.writtenCaches, k) ==> unheld(t.writtenCaches[k].mu))
+//@   ensures (fail || old(t.failed.v != 0)) ==> forallv(k string, contains(t.writtenCaches, k) ==> t.writtenCaches[k].scrapped && !contains(t.manager.sharedCaches, k))
+//@   loop 1 invariant heldW(t.mu) && heldW(t.manager.mu)
+//@   loop 1 invariant forallv(k string, contains(t.writtenCaches, k) == old(contains(t.writtenCaches, k)))
+//@   loop 1 invariant forallv(k string, contains(t.writtenCaches, k) ==> t.writtenCaches[k] != nil)
+//@   loop 1 invariant forallv(a string, forallv(b string, contains(t.writtenCaches, a) && contains(t.writtenCaches, b) && a != b ==> t.writtenCaches[a] != t.writtenCaches[b]))
+//@   loop 1 invariant forallv(k string, contains(t.writtenCaches, k) && !visited(k) ==> heldW(t.writtenCaches[k].mu))
+//@   loop 1 invariant forallv(k string, contains(t.writtenCaches, k) && visited(k) ==> unheld(t.writtenCaches[k].mu))
+//@   loop 1 invariant failed ==> forallv(k string, contains(t.writtenCaches, k) && visited(k) ==> t.writtenCaches[k].scrapped && !contains(t.manager.sharedCaches, k))
